@@ -1503,9 +1503,18 @@ func GenTransport(g *pk.Gen) {
 type failWriter struct {
 	limit    int
 	accepted []byte
+	dead     bool
 }
 
-func (f *failWriter) Read(p []byte) (int, error) { select {} }
+func (f *failWriter) Read(p []byte) (int, error) {
+	if len(p) == 0 {
+		return 0, nil
+	}
+	if f.dead {
+		return 0, io.EOF // the peer has closed the idle connection
+	}
+	select {}
+}
 func (f *failWriter) Write(p []byte) (int, error) {
 	room := f.limit - len(f.accepted)
 	if room >= len(p) {
@@ -1533,14 +1542,27 @@ func (p *chunkPkg) WriteTo(ch tds.BytesChannel) error {
 }
 func (p *chunkPkg) String() string { return "chunkPkg" }
 
-func WriteFailRun(ps int, chunks [][]byte, k int) sx.T {
-	tr := &failWriter{limit: k}
-	conn, err := tds.VerifNewConn(context.Background(), &tds.Info{}, tr, false)
+// dead: the read side has ended before (the peer closed the idle connection, nobody is waiting for a response): the reader
+// goroutine runs, has reported the failure and the connection's error queue has filled up; the failing write must still
+// return its error at once.
+func WriteFailRun(ps int, chunks [][]byte, k int, dead bool) sx.T {
+	tr := &failWriter{limit: k, dead: dead}
+	conn, err := tds.VerifNewConn(context.Background(), &tds.Info{}, tr, dead)
 	if err != nil {
 		panic(err)
 	}
 	conn.VerifSetPacketSize(ps)
 	ch, _ := conn.NewChannel()
+	if dead {
+		for w, last := 0, -1; w < 100; w++ { // until the error queue stops growing
+			time.Sleep(2 * time.Millisecond)
+			n := conn.VerifErrChLen()
+			if n == last && n > 0 && w > 5 {
+				break
+			}
+			last = n
+		}
+	}
 	class := 0
 	done := make(chan int, 1)
 	go func() {
@@ -1599,7 +1621,18 @@ func GenWriteFail(g *pk.Gen) {
 			ks = []int{0, 1, 7, 8, 9, ps - 1, ps, ps + 1, ps + 8, wire - 1, wire, wire + 1, g.Rng.Intn(wire), g.Rng.Intn(wire)}
 		}
 		for _, k := range ks {
-			g.Out.Case(13, sx.L{sx.I(int64(ps)), ct, sx.I(int64(k))}, WriteFailRun(ps, chunks, k), "write-fail")
+			g.Out.Case(13, sx.L{sx.I(int64(ps)), ct, sx.I(int64(k))}, WriteFailRun(ps, chunks, k, false), "write-fail")
+		}
+		for j, k := range ks {
+			if j%7 == i%7 && !tooManyHangs() {
+				t := WriteFailRun(ps, chunks, k, true)
+				if l, ok := t.(sx.L); ok && len(l) > 0 {
+					if c, ok := l[0].(sx.I); ok && int64(c) == -2 {
+						atomic.AddInt32(&hangs, 1)
+					}
+				}
+				g.Out.Case(13, sx.L{sx.I(int64(ps)), ct, sx.I(int64(k)), sx.I(1)}, t, "write-fail;reader-ended")
+			}
 		}
 	}
 }
